@@ -50,7 +50,7 @@ func genC18(t *rapid.T) c18Case {
 	for i := 0; i < nb; i++ {
 		k := big.Add(classTest)
 		for _, a := range atoms {
-			assign(t, big.Nodes[k], a, rapid.IntRange(0, 3).Draw(t, "bigTruth") == 0, false)
+			assign(t, big, k, a, rapid.IntRange(0, 3).Draw(t, "bigTruth") == 0, false)
 		}
 	}
 	c.Docs = append(c.Docs, big.JSONLD(m.LDOpts{}), "[]")
